@@ -136,6 +136,7 @@ class StoreRun:
         self.written_blobs = {}  # for C07: ki -> (content_key, bytes at creation)
         self.faulted = False
         self.held = {}  # ki -> weak-referenceable result object the "caller" still holds
+        self.kept = {}  # ki -> a superseded one it holds as well
         if self.kind == "fs":
             rm(root)
             os.makedirs(root)
@@ -268,7 +269,8 @@ class StoreRun:
 
             stored = MementoException.from_exception(val) if isinstance(val, Exception) else val
             be.memoize(override, mem, stored)
-            self.held.pop(ki, None)
+            if ki in self.held:  # the caller keeps holding the array an earlier memoization of this call gave it
+                self.kept[ki] = self.held.pop(ki)
             if cls_is_array(val):
                 self.held[ki] = val
             self.mem[ki] = mem
@@ -637,7 +639,7 @@ class StoreRun:
 
         # (every scalar attribute of the backend objects, known to this check or not: histories are merged only when these agree too)
         hidden = object_state(self.be, roots=(getattr(self, "alt_root", None), self.root))
-        return (real, model, held, getattr(self, "spell", 0), hidden)
+        return (real, model, held, tuple(sorted(self.kept)), getattr(self, "spell", 0), hidden)
 
 
 # ---------------------------------------------------------------------------------------------
